@@ -25,8 +25,13 @@ def table(rng, n):
     return ovs
 
 
-def table_txt(ovs):
-    return '(defoverrides %s)' % ' '.join('(%s) (%s)' % (' '.join(im + [ik]), ' '.join(om + [ok])) for im, ik, om, ok in ovs)
+def table_txt(ovs, rng=None):
+    def lst(mods, key):
+        l = list(mods) + [key]
+        if rng is not None and rng.random() < 0.4:
+            rng.shuffle(l)             # the written order of an entry's keys carries no meaning
+        return ' '.join(l)
+    return '(defoverrides %s)' % ' '.join('(%s) (%s)' % (lst(im, ik), lst(om, ok)) for im, ik, om, ok in ovs)
 
 
 def spec_sets(ovs, keys):
@@ -53,7 +58,7 @@ def gen_cases(rng, tier):
     ntab = 40 if tier == 'quick' else 600
     for i in range(ntab):
         ovs = table(rng, rng.randint(1, 5))
-        cfg = '(defsrc a)\n(deflayer l0 a)\n' + table_txt(ovs)
+        cfg = '(defsrc a)\n(deflayer l0 a)\n' + table_txt(ovs, rng)
         universe = sorted({k for im, ik, om, ok in ovs for k in im + [ik]} | {'b', 'lsft'})
         lists = []
         for n in range(0, 5):
@@ -77,7 +82,7 @@ def gen_cases(rng, tier):
         src = ['a', 's', 'd', 'f', 'g']
         acts = ['lsft', 'lctl', rng.choice(['a', 'b', 'x']), rng.choice(['(multi a b)', 'ralt', 'y', '(multi lsft x)', 'S-a', 'lsft']), rng.choice(['1', 'lalt', 'lsft', 'C-b'])]
         cfg = '(defcfg override-release-on-activation %s)\n(defsrc %s)\n(deflayer l0 %s)\n%s' % (
-            rng.choice(['yes', 'no']), ' '.join(src), ' '.join(acts), table_txt(ovs))
+            rng.choice(['yes', 'no']), ' '.join(src), ' '.join(acts), table_txt(ovs, rng))
         hg = gen.HistGen(rng, gen.codes_of(src), [0, 1, 2, 7])
         toks = []
         for t in hg.consistent(rng.randint(3, 14)) + ['t30']:
